@@ -17,8 +17,15 @@ Inductive rres (Q : Type) :=
 | RPacket (q : Q)
 | RParseError (e : err)        (* DatagramProtocolParseError(DeserializeError | PacketConversionError) *)
 | RCrashed                     (* RuntimeError("protocol.build_packet_from_datagram() crashed") *)
-| RNoData.                     (* transport.recv found nothing: TimeoutError *)
+| RNoData                      (* transport.recv found nothing: TimeoutError *)
+| RSockError                   (* the transport reported an asynchronous socket error (ICMP -> error_received) here *)
+| RCancelled.                  (* the receive was cancelled while nothing was available: nothing consumed *)
 Arguments RPacket {Q}. Arguments RParseError {Q}. Arguments RCrashed {Q}. Arguments RNoData {Q}.
+Arguments RSockError {Q}. Arguments RCancelled {Q}.
+
+(* what sits in the receive queue of the transport, in order: datagrams, and the positions at which an asynchronous
+   socket error was reported (asyncio: error_received puts the exception and a marker between the datagrams) *)
+Inductive item := IData (d : bytes) | IErr.
 
 Section Datagram.
   Context {P Q : Type}.                      (* DTO packets, packets *)
@@ -40,7 +47,11 @@ Section Datagram.
     end.
 
   (* a connected datagram socket: what the peer sent us and has not been received yet; what we sent *)
-  Record transport := { inq : list bytes; outq : list bytes }.
+  Record transport := { inq : list item; outq : list bytes }.
+
+  (* one queue item gives exactly one outcome *)
+  Definition item_result (i : item) : rres Q :=
+    match i with IData d => build_packet_from_datagram d | IErr => RSockError end.
 
   Definition transport_send (t : transport) (d : bytes) : transport :=
     match d with
@@ -53,17 +64,29 @@ Section Datagram.
 
   Definition recv_packet (t : transport) : transport * rres Q :=
     match inq t with
-    | d :: rest => ({| inq := rest; outq := outq t |}, build_packet_from_datagram d)
+    | i :: rest => ({| inq := rest; outq := outq t |}, item_result i)
     | [] => (t, RNoData)
     end.
 
-  Inductive op := OpSend (q : Q) | OpRecv | OpArrive (d : bytes).   (* OpArrive: the peer sends us a datagram *)
+  (* a receive whose task is cancelled one scheduling step after it started: what was already available is delivered
+     (taking it and turning it into a packet happens without a cancellation point in between); otherwise nothing is
+     consumed *)
+  Definition recv_packet_cancelled (t : transport) : transport * rres Q :=
+    match inq t with
+    | i :: rest => ({| inq := rest; outq := outq t |}, item_result i)
+    | [] => (t, RCancelled)
+    end.
+
+  (* OpArrive: the peer sends us a datagram; OpSockError: the kernel reports an asynchronous error on the socket *)
+  Inductive op := OpSend (q : Q) | OpRecv | OpArrive (d : bytes) | OpRecvCancel | OpSockError.
 
   Definition do_op (t : transport) (o : op) : transport * list (rres Q) :=
     match o with
     | OpSend q => (send_packet t q, [])
     | OpRecv => let '(t', r) := recv_packet t in (t', [r])
-    | OpArrive d => ({| inq := inq t ++ [d]; outq := outq t |}, [])
+    | OpArrive d => ({| inq := inq t ++ [IData d]; outq := outq t |}, [])
+    | OpRecvCancel => let '(t', r) := recv_packet_cancelled t in (t', [r])
+    | OpSockError => ({| inq := inq t ++ [IErr]; outq := outq t |}, [])
     end.
 
   Fixpoint do_ops (t : transport) (os : list op) : transport * list (rres Q) :=
